@@ -48,6 +48,13 @@ def shifted(t, o):
     return out, oob
 
 
+def _torder(t, es):
+    """'order' is time order: points that (come to) share one time have no time order to keep, and the constructor every
+    result passes through lists them by label (the reading DESIGN 11.4 records for C14).  Met by the living histories:
+    a point inserted at the very end of A's span and a point of B at 0; two points a few ulps apart shifted onto one float"""
+    return sorted(es, key=lambda e: (e[0], e[-1])) if t["k"] == "P" else es
+
+
 def oracle(c, r):
     if dispatch.is_tg(c):
         return tgops.oracle(c, r)
@@ -63,7 +70,7 @@ def oracle(c, r):
         if r[0] == "err":
             return Failure(dict(sig, clause="no-error", exc=r[1]), f"editTimestamps raised {r[1]}")
         res = r[1]
-        if not T.entries_close(exp, res["es"]):
+        if not T.entries_close(_torder(t, exp), res["es"]):
             return Failure(dict(sig, clause="entries"), f"entries {res['es']} expected {exp}")
         lo = min([t["lo"]] + [e[0] for e in exp])
         hi = max([t["hi"]] + [e[-2] for e in exp])
@@ -78,9 +85,11 @@ def oracle(c, r):
             return Failure(dict(sig, clause="no-error", exc=r[1]), f"appendTier raised {r[1]}")
         res = r[1]
         exp = [list(e) for e in t["es"]] + [[x + t["hi"] for x in e[:-1]] + [e[-1]] for e in u["es"]]
-        if not T.entries_close(exp, res["es"]):
+        if not T.entries_close(_torder(t, exp), res["es"]):
             return Failure(dict(sig, clause="entries"), f"entries {res['es']} expected {exp}")
-        if res["es"][:len(t["es"])] != [list(e) for e in t["es"]]:
+        if _torder(t, res["es"])[:len(t["es"])] != _torder(t, [list(e) for e in t["es"]]) and t["k"] == "I":
+            return Failure(dict(sig, clause="first-operand-unchanged"), "A's entries changed")
+        if t["k"] == "P" and any(list(e) not in res["es"] for e in t["es"]):
             return Failure(dict(sig, clause="first-operand-unchanged"), "A's entries changed")
         if not (res["lo"] == t["lo"] and T.close(res["hi"], t["hi"] + u["hi"])):
             return Failure(dict(sig, clause="span"), f"span [{res['lo']},{res['hi']}] expected [{t['lo']},{t['hi'] + u['hi']}]")
